@@ -24,7 +24,7 @@ VERIF = os.path.dirname(os.path.dirname(os.path.abspath(__file__)))
 SPEC = os.path.join(VERIF, "spec")
 DRIVER = os.path.join(VERIF, "driver")
 EVID = os.path.join(VERIF, "evidence")
-REPLAYS = os.path.join(VERIF, "replays")
+REPLAYS = os.environ.get("VERIF_REPLAYS", os.path.join(VERIF, "replays"))
 KF_FILE = os.path.join(VERIF, "known_findings.json")
 JAVA_CP = "/opt/veriftools/tla/tla2tools.jar:/opt/veriftools/tla/CommunityModules-deps.jar"
 NCPU = os.cpu_count() or 8
@@ -44,18 +44,27 @@ def log(*a):
     print(*a, flush=True)
 
 
+REPO = os.environ.get("VERIF_REPO", "/repo")     # the tree under test (development aid: a scratch worktree may be named)
+
+
 def build_driver(scratch, race=False):
+    """Build the driver against the current working tree of the repository, hooks on (-tags verif)."""
     out = os.path.join(scratch, "driver.bin")
-    shutil.copy("/repo/go.sum", os.path.join(DRIVER, "go.sum")) if os.path.exists("/repo/go.sum") else None
+    src = os.path.join(scratch, "driver-src")
+    shutil.copytree(DRIVER, src, ignore=shutil.ignore_patterns("go.sum"))
+    gm = open(os.path.join(src, "go.mod")).read().replace("=> /repo", "=> " + REPO)
+    open(os.path.join(src, "go.mod"), "w").write(gm)
+    if os.path.exists(os.path.join(REPO, "go.sum")):
+        shutil.copy(os.path.join(REPO, "go.sum"), os.path.join(src, "go.sum"))
     cmd = ["go", "build", "-tags", "verif", "-o", out]
     env = dict(GOENV)
     if race:
         cmd.insert(2, "-race")
         env["CGO_ENABLED"] = "1"
     cmd.append(".")
-    p = subprocess.run(cmd, cwd=DRIVER, env=env, capture_output=True, text=True)
+    p = subprocess.run(cmd, cwd=src, env=env, capture_output=True, text=True)
     if p.returncode != 0:
-        raise Infra("driver build failed (does /repo compile with -tags verif?):\n" + p.stdout + p.stderr)
+        raise Infra("driver build failed (does the repository compile with -tags verif?):\n" + p.stdout + p.stderr)
     return out
 
 
@@ -151,7 +160,7 @@ def kf_match(pid, ev, verdict, kf):
         return None
     kid = verdict.split(":", 2)[1]
     for k in kf.get("known", []):
-        if k["id"] == kid and k["property"] == pid:
+        if k["id"] == kid and (k["property"] == pid or pid in k.get("properties", [])):
             return k
     return None
 
